@@ -1093,7 +1093,7 @@ fn render_trace(items: &[TraceItem]) -> G {
     g
 }
 
-fn abstract_arg(e: &Expr) -> String {
+fn abstract_arg(e: &Expr, fmt: bool) -> String {
     match e {
         Expr::Lit(l) => match &l.lit {
             Lit::Str(s) => s.value(),
@@ -1101,8 +1101,16 @@ fn abstract_arg(e: &Expr) -> String {
             Lit::Bool(b) => b.value.to_string(),
             _ => "?".into(),
         },
-        Expr::Reference(r) => abstract_arg(&r.expr),
-        Expr::Paren(p) => abstract_arg(&p.expr),
+        Expr::Reference(r) => abstract_arg(&r.expr, fmt),
+        Expr::Paren(p) => abstract_arg(&p.expr, fmt),
+        // `format!("LITERAL_{x}")`: the literal text
+        Expr::Macro(m) if fmt && m.mac.path.is_ident("format") => match m.mac.parse_body_with(syn::punctuated::Punctuated::<Expr, syn::Token![,]>::parse_terminated) {
+            Ok(args) => match args.first() {
+                Some(Expr::Lit(syn::ExprLit { lit: Lit::Str(s), .. })) => s.value(),
+                _ => "?".into(),
+            },
+            Err(_) => "?".into(),
+        },
         // a constructor-like call without arguments: `Stdio::null()`
         Expr::Call(c) if c.args.is_empty() => match &*c.func {
             Expr::Path(p) if p.path.segments.len() >= 2 => {
@@ -1119,6 +1127,10 @@ struct TraceCx {
     recvs: BTreeSet<String>,
     inline: Vec<String>,
     stack: Vec<String>,
+    /// the request's `opaque_conditions`
+    opaque_conds: bool,
+    /// the boolean inputs created for conditions that do not translate
+    conds: Vec<String>,
 }
 
 impl TraceCx {
@@ -1257,7 +1269,7 @@ impl<'u> Tr<'u> {
                             return Ok(items);
                         }
                     }
-                    return Ok(vec![TraceItem::Event(name, args.iter().map(|a| abstract_arg(a)).collect())]);
+                    return Ok(vec![TraceItem::Event(name, args.iter().map(|a| abstract_arg(a, cx.opaque_conds)).collect())]);
                 }
                 // a chain: the calls nearer to the object come first
                 let mut out = self.trace_expr(&m.receiver, env, cx)?;
@@ -1269,7 +1281,7 @@ impl<'u> Tr<'u> {
                     && matches!(&*m.receiver, Expr::MethodCall(_))
                     && chain_root(&m.receiver).map(|r| cx.is_recv(r)).unwrap_or(false)
                 {
-                    out.push(TraceItem::Event(m.method.to_string(), args.iter().map(|a| abstract_arg(a)).collect()));
+                    out.push(TraceItem::Event(m.method.to_string(), args.iter().map(|a| abstract_arg(a, cx.opaque_conds)).collect()));
                     return Ok(out);
                 }
                 for a in &m.args {
@@ -1278,6 +1290,17 @@ impl<'u> Tr<'u> {
                 Ok(out)
             }
             Expr::If(_) | Expr::Match(_) => self.trace_branching(e, env, cx),
+            Expr::ForLoop(fl) if cx.opaque_conds => {
+                // calls made in a loop: once, marked `*` (any number of times, in this order per turn)
+                let inner = self.trace_block(&fl.body.stmts, env, cx)?;
+                if inner.is_empty() {
+                    return Ok(vec![]);
+                }
+                match only_events(&inner) {
+                    Some(evs) => Ok(evs.into_iter().map(|(m, a)| TraceItem::Event(format!("*{m}"), a)).collect()),
+                    None => self.err(e.span(), "calls on the object under a condition inside a `for` loop"),
+                }
+            }
             _ => Ok(vec![]),
         }
     }
@@ -1353,6 +1376,19 @@ impl<'u> Tr<'u> {
                 let mut merged = first.clone();
                 for b in &evs[1..] {
                     if b.len() != first.len() || b.iter().zip(&first).any(|(x, y)| x.0 != y.0 || x.1.len() != y.1.len()) {
+                        if cx.opaque_conds && branches.len() == 2 && matches!(e, Expr::If(_) | Expr::Match(_)) {
+                            // the condition is an input of the generated definition
+                            let c = format!("c{}", cx.conds.len() + 1);
+                            cx.conds.push(c.clone());
+                            self.notes.push(format!(
+                                "{}:{}: the condition of this `if` / two-armed `match` is not translated ({}): it is the boolean input `{c}` of the generated definition (true: the first branch)",
+                                self.cur_file,
+                                e.span().start().line,
+                                cond_err.msg
+                            ));
+                            let g = G::If(Box::new(raw(c)), Box::new(render_trace(&branches[0])), Box::new(render_trace(&branches[1])));
+                            return Ok(vec![TraceItem::Cond(g)]);
+                        }
                         return self.err(
                             e.span(),
                             format!(
@@ -1526,12 +1562,15 @@ impl<'u> Tr<'u> {
         let mut binders = Vec::new();
         self.declare_params(rq, self_ty.as_deref(), &mut env, &mut binders)?;
         self.cur_file = self.u.files[file].clone();
-        let mut cx = TraceCx { recvs: rq.receivers.iter().cloned().collect(), inline: rq.inline.clone(), stack: vec![format!("{}@{}:{}", rq.item.rsplit("::").next().unwrap_or(""), self.u.files[file], _sig.ident.span().start().line)] };
+        let mut cx = TraceCx { recvs: rq.receivers.iter().cloned().collect(), inline: rq.inline.clone(), stack: vec![format!("{}@{}:{}", rq.item.rsplit("::").next().unwrap_or(""), self.u.files[file], _sig.ident.span().start().line)], opaque_conds: rq.opaque_conditions, conds: Vec::new() };
         let items = self.trace_block(&body.stmts, &env, &mut cx)?;
         if items.is_empty() {
             return self.err(sp, format!("no call on {} in `{}`", rq.receivers.join(" / "), rq.item));
         }
         let g = render_trace(&items);
+        for c in &cx.conds {
+            binders.push(format!("({c} : bool)"));
+        }
         let text = format!("Definition {name} {} : list (string * list string) :=\n  {}.", binders.join(" "), g.render(2));
         let origin = format!("{}:{} calls on {} in fn {} {}", self.u.files[file], body.span().start().line, rq.receivers.join(" / "), rq.item, tok_hash(body));
         self.notes.push(format!(
@@ -1580,11 +1619,21 @@ fn contains_call_named(e: &Expr, name: &str) -> bool {
             }
             syn::visit::visit_expr(self, e);
         }
+        // `name!`: a macro invocation counts as a call of it
+        fn visit_macro(&mut self, m: &'ast syn::Macro) {
+            if macro_call_name(m).as_deref() == Some(self.0) {
+                self.1 = true;
+            }
+        }
         fn visit_item(&mut self, _: &'ast Item) {}
     }
     let mut v = V(name, false);
     v.visit_expr(e);
     v.1
+}
+
+fn macro_call_name(m: &syn::Macro) -> Option<String> {
+    m.path.segments.last().map(|s| format!("{}!", s.ident))
 }
 
 impl<'u> Tr<'u> {
@@ -1659,8 +1708,37 @@ impl<'u> Tr<'u> {
                     _ => app("List.app", vec![here, after]),
                 })
             }
+            Stmt::Macro(sm) if macro_call_name(&sm.mac).as_deref() == Some(callee) => {
+                let here = self.effects_macro(&sm.mac, env, callee, ety)?;
+                let after = self.effects_block(rest, env, callee, ety)?;
+                Ok(match &after {
+                    G::Raw(b) if b == "nil" => here,
+                    _ => app("List.app", vec![here, after]),
+                })
+            }
             Stmt::Macro(_) | Stmt::Item(_) => self.effects_block(rest, env, callee, ety),
         }
+    }
+
+    /// `callee!(a0, a1, ..)`: the argument the request names is the recorded value
+    fn effects_macro(&mut self, mac: &syn::Macro, env: &Env, callee: &str, ety: &mut Option<Ty>) -> R<G> {
+        let args: Vec<Expr> = match mac.parse_body_with(syn::punctuated::Punctuated::<Expr, syn::Token![,]>::parse_terminated) {
+            Ok(p) => p.into_iter().collect(),
+            Err(e) => return self.err(mac.span(), format!("cannot parse the arguments of `{callee}`: {e}")),
+        };
+        let i = match self.effect_arg {
+            Some(i) => i,
+            None => return self.err(mac.span(), format!("`{callee}`: the request does not say which argument (`of: {{\"arg\": i}}`)")),
+        };
+        let a = match args.get(i) {
+            Some(a) => a,
+            None => return self.err(mac.span(), format!("`{callee}` is called with {} arguments (argument {i} is needed)", args.len())),
+        };
+        let (g, t) = self.expr(a, env, ety.as_ref())?;
+        if ety.is_none() {
+            *ety = Some(t);
+        }
+        Ok(raw(format!("(cons {} nil)", g.atom(4))))
     }
 
     fn effects_expr(&mut self, e: &Expr, env: &Env, callee: &str, ety: &mut Option<Ty>) -> R<G> {
@@ -1674,19 +1752,29 @@ impl<'u> Tr<'u> {
             Expr::Await(a) => self.effects_expr(&a.base, env, callee, ety),
             Expr::Reference(r) => self.effects_expr(&r.expr, env, callee, ety),
             Expr::Block(b) if b.label.is_none() => self.effects_block(&b.block.stmts, env, callee, ety),
+            Expr::Macro(m) if macro_call_name(&m.mac).as_deref() == Some(callee) => self.effects_macro(&m.mac, env, callee, ety),
             Expr::MethodCall(_) | Expr::Call(_) if call_name(e).as_deref() == Some(callee) => {
                 let args: Vec<&Expr> = match e {
                     Expr::MethodCall(m) => m.args.iter().collect(),
                     Expr::Call(c) => c.args.iter().collect(),
                     _ => vec![],
                 };
-                if args.len() != 1 {
-                    return self.err(e.span(), format!("`{callee}` is called with {} arguments (one is needed)", args.len()));
-                }
-                if contains_call_named(args[0], callee) {
+                let arg = match self.effect_arg {
+                    None => {
+                        if args.len() != 1 {
+                            return self.err(e.span(), format!("`{callee}` is called with {} arguments (one is needed)", args.len()));
+                        }
+                        args[0]
+                    }
+                    Some(i) => match args.get(i) {
+                        Some(a) => *a,
+                        None => return self.err(e.span(), format!("`{callee}` is called with {} arguments (argument {i} is needed)", args.len())),
+                    },
+                };
+                if args.iter().any(|a| contains_call_named(a, callee)) {
                     return self.err(e.span(), format!("nested calls of `{callee}`"));
                 }
-                let (g, t) = self.expr(args[0], env, ety.as_ref())?;
+                let (g, t) = self.expr(arg, env, ety.as_ref())?;
                 if ety.is_none() {
                     *ety = Some(t);
                 }
@@ -1738,6 +1826,7 @@ impl<'u> Tr<'u> {
         let mut binders = Vec::new();
         self.declare_params(rq, self_ty.as_deref(), &mut env, &mut binders)?;
         self.cur_file = self.u.files[file].clone();
+        self.effect_arg = rq.of.as_ref().and_then(|o| o.get("arg")).and_then(|v| v.as_u64()).map(|v| v as usize);
         let mut ety: Option<Ty> = match &rq.ty {
             Some(t) => {
                 let ty: Type = match syn::parse_str(t) {
@@ -1750,7 +1839,9 @@ impl<'u> Tr<'u> {
             }
             None => None,
         };
-        let g = self.effects_block(&stmts, &env, &callee, &mut ety)?;
+        let g = self.effects_block(&stmts, &env, &callee, &mut ety);
+        self.effect_arg = None;
+        let g = g?;
         let ety = match ety {
             Some(t) => t,
             None => return self.err(sig.ident.span(), format!("no call of `{callee}`{scope_text} of `{}`", rq.item)),
@@ -1904,6 +1995,160 @@ impl<'u> Tr<'u> {
             "{name} is one turn of the loop `for {pat} in ..` of {}: the new values of {} as a function of their old values and of {}; `continue` ends the turn",
             rq.item,
             rq.state.iter().map(|(a, _)| format!("`{a}`")).collect::<Vec<_>>().join(", "),
+            rq.params.iter().map(|(a, _)| format!("`{a}`")).collect::<Vec<_>>().join(", ")
+        ));
+        self.emit(&name, text, origin);
+        Ok(name)
+    }
+}
+
+// ------------------------------------------------------------------------------------ loop_step
+
+impl<'u> Tr<'u> {
+    /// One turn of the function's one `loop`, from the statement after the last `let` of the loop body that binds
+    /// `after_let` to the end of the body, as a function of the declared free variables (kind "loop_step"). The turn
+    /// must end in the statement `<receivers[0]>.<call>(args);` (the effect of a turn that goes round again): the value
+    /// is then `Ok(args)`; a `return Err(e)` on the way is `Err(e)` (the error type is the function's); `break` /
+    /// `continue` inside the fragment are errors. What precedes the fragment (how the free variables are obtained) is
+    /// not translated.
+    fn loop_step(&mut self, rq: &Request) -> R<String> {
+        let sp = Span::call_site();
+        let name = self.request_name(rq)?;
+        let (file, sig, body, self_ty) = self.find_fn(&rq.item, sp)?;
+        self.cur_file = self.u.files[file].clone();
+        struct L<'a>(Vec<&'a syn::ExprLoop>);
+        impl<'ast> syn::visit::Visit<'ast> for L<'ast> {
+            fn visit_expr_loop(&mut self, l: &'ast syn::ExprLoop) {
+                self.0.push(l);
+            }
+            fn visit_expr_closure(&mut self, _: &'ast syn::ExprClosure) {}
+            fn visit_item(&mut self, _: &'ast Item) {}
+        }
+        let mut lv = L(Vec::new());
+        syn::visit::Visit::visit_block(&mut lv, body);
+        if lv.0.len() != 1 {
+            return self.err(sig.ident.span(), format!("`{}` has {} `loop`s (exactly one is needed)", rq.item, lv.0.len()));
+        }
+        let lp = lv.0[0];
+        let stmts = &lp.body.stmts;
+        let after = match &rq.after_let {
+            Some(a) => a.clone(),
+            None => return self.err(sp, "loop_step request without `after_let`"),
+        };
+        let mut start = None;
+        for (i, s) in stmts.iter().enumerate() {
+            if let Stmt::Local(l) = s {
+                let mut ids = Vec::new();
+                pat_idents(&l.pat, &mut ids);
+                if ids.iter().any(|x| *x == after) {
+                    start = Some(i + 1);
+                }
+            }
+        }
+        let start = match start {
+            Some(i) => i,
+            None => return self.err(lp.span(), format!("no `let` of the loop body of `{}` binds `{after}`", rq.item)),
+        };
+        let (recv, callee) = match (rq.receivers.first(), &rq.call) {
+            (Some(r), Some(c)) => (r.clone(), c.clone()),
+            _ => return self.err(sp, "loop_step request without `receivers` / `call`"),
+        };
+        let frag = &stmts[start..];
+        let last_args: Vec<Expr> = match frag.last() {
+            Some(Stmt::Expr(Expr::MethodCall(m), Some(_))) if m.method == callee.as_str() && is_ident_path(&m.receiver, &recv) => {
+                m.args.iter().cloned().collect()
+            }
+            _ => {
+                return self.err(
+                    lp.span(),
+                    format!("the loop body of `{}` does not end in the statement `{recv}.{callee}(..);`", rq.item),
+                )
+            }
+        };
+        {
+            struct B(bool);
+            impl<'ast> syn::visit::Visit<'ast> for B {
+                fn visit_expr_break(&mut self, _: &'ast syn::ExprBreak) {
+                    self.0 = true;
+                }
+                fn visit_expr_continue(&mut self, _: &'ast syn::ExprContinue) {
+                    self.0 = true;
+                }
+                fn visit_expr_closure(&mut self, _: &'ast syn::ExprClosure) {}
+                fn visit_item(&mut self, _: &'ast Item) {}
+            }
+            let mut b = B(false);
+            for s in frag {
+                syn::visit::Visit::visit_stmt(&mut b, s);
+            }
+            if b.0 {
+                return self.err(lp.span(), "`break` / `continue` inside the translated part of the loop body");
+            }
+        }
+        // the error type of the function
+        let err_ty: Type = match &sig.output {
+            ReturnType::Type(_, t) => match &**t {
+                Type::Path(p) if p.path.segments.last().map(|s| s.ident == "Result").unwrap_or(false) => {
+                    let seg = p.path.segments.last().unwrap();
+                    let targs: Vec<&Type> = match &seg.arguments {
+                        syn::PathArguments::AngleBracketed(a) => {
+                            a.args.iter().filter_map(|a| if let syn::GenericArgument::Type(t) = a { Some(t) } else { None }).collect()
+                        }
+                        _ => vec![],
+                    };
+                    match targs.get(1) {
+                        Some(t) => (*t).clone(),
+                        None => return self.err(sig.span(), "loop_step: the function's `Result` has no explicit error type"),
+                    }
+                }
+                _ => return self.err(sig.span(), "loop_step: the function does not return a `Result`"),
+            },
+            ReturnType::Default => return self.err(sig.span(), "loop_step: the function does not return a `Result`"),
+        };
+        let ety = self.ty(&err_ty, self_ty.as_deref())?;
+        self.cur_file = self.u.files[file].clone();
+        let mut env = Env { self_ty: self_ty.clone(), ..Env::default() };
+        let mut binders = Vec::new();
+        self.declare_params(rq, self_ty.as_deref(), &mut env, &mut binders)?;
+        self.cur_file = self.u.files[file].clone();
+        let ret = Ty::Result(Box::new(Ty::Never), Box::new(ety));
+        env.ret = Some(ret.clone());
+        let tail_text = if last_args.len() == 1 {
+            format!("Ok({})", last_args[0].to_token_stream())
+        } else {
+            format!("Ok(({}))", last_args.iter().map(|a| a.to_token_stream().to_string()).collect::<Vec<_>>().join(", "))
+        };
+        let tail: Expr = match syn::parse_str(&tail_text) {
+            Ok(e) => e,
+            Err(e) => return self.err(lp.span(), format!("loop_step: cannot rebuild the effect `{tail_text}`: {e}")),
+        };
+        let mut synth: Vec<Stmt> = frag[..frag.len() - 1].to_vec();
+        synth.push(Stmt::Expr(tail, None));
+        let saved_opaque = std::mem::take(&mut self.opaque);
+        self.in_progress.push(format!("fn {}", rq.item));
+        let r = self.block(&synth, &env, &K::Value(Some(ret.clone())));
+        self.in_progress.pop();
+        let r = r.map(|(g, t)| {
+            self.opaque_binders(&mut binders);
+            (g, t)
+        });
+        self.opaque = saved_opaque;
+        let (g, t) = r?;
+        let text = format!("Definition {name} {} : {} :=\n  {}.", binders.join(" "), t.coq(), g.render(2));
+        let mut hashed = proc_macro2::TokenStream::new();
+        for s in frag {
+            hashed.extend(s.to_token_stream());
+        }
+        let origin = format!(
+            "{}:{} one turn of the loop of fn {} after `let {after}` {}",
+            self.u.files[file],
+            frag.first().map(|s| s.span().start().line).unwrap_or(0),
+            rq.item,
+            tok_hash(hashed)
+        );
+        self.notes.push(format!(
+            "{name} is one turn of the `loop` of {} from the statement after the last `let` that binds `{after}` to the end of the loop body, as a function of {}: `Ok(args)` when the turn ends in `{recv}.{callee}(args)` and goes round again, `Err(e)` when it leaves the function with `return Err(e)`; how `{after}` is obtained and when the loop ends are not translated",
+            rq.item,
             rq.params.iter().map(|(a, _)| format!("`{a}`")).collect::<Vec<_>>().join(", ")
         ));
         self.emit(&name, text, origin);
